@@ -286,6 +286,9 @@ def run_config(unit, cfgname, workdir, tier='quick', mutate=None, want_trace=Fal
         res.status, res.reason = 'inconclusive', 'goto-cc failed (extraction broke?): ' + (err + out)[-600:]
         res.log = err + out
         return res
+    if re.search(r"function '\w+' is not declared", err + out):
+        res.status, res.reason = 'inconclusive', 'implicit function declaration (callee cut must precede its caller): ' + re.search(r"function '\w+' is not declared", err + out).group(0)
+        return res
     enforce = cfg.get('enforce', sp.meta.get('cname', ''))
     # loops with a compile-time constant trip count and no contract, nested in loops with contracts, are unwound first
     extra = getattr(unit, 'extra_loops', [])
